@@ -782,4 +782,154 @@ example : scriptOffsets exScript = [0, 2, 0, -1] ∧ maxList 0 ((scriptOffsets e
 
 example : periodRange 1 (6 - 1 - 2) = [1, 2, 3] := by decide
 
+/-! ### Non-vacuity (review): every hypothesis-carrying theorem instantiated at a concrete non-trivial script
+
+`exS`: `Z = log(Y[2]) * {a}` ; `Y = Z[-1] + X['a'] + <e>` (a called function, a parameter, an error, a lead, a lag, a
+named period; Y read before assigned).  `exKind`: `Y = {a}` ; `Z = a`.  `exDouble`: `Y = X` ; `Y = Z`. -/
+
+private def exS0 : Stmt :=
+  .eqn [⟨"Z", .endogenous, .int 0⟩, ⟨"log", .function, .none⟩, ⟨"Y", .exogenous, .int 2⟩, ⟨"a", .parameter, .int 0⟩]
+     "Z[t] = log(Y[t+2]) * a[t]" "self._Z[t] = np.log(self._Y[t+2]) * self._a[t]"
+private def exS : List Stmt :=
+  [exS0,
+   .eqn [⟨"Y", .endogenous, .int 0⟩, ⟨"Z", .exogenous, .int (-1)⟩, ⟨"X", .exogenous, .str "'a'"⟩, ⟨"e", .error, .int 0⟩]
+     "Y[t] = Z[t-1] + X['a'] + e[t]" "self._Y[t] = self._Z[t-1] + self['X', 'a'] + self._e[t]"]
+private def exKind : List Stmt :=
+  [.eqn [⟨"Y", .endogenous, .int 0⟩, ⟨"a", .parameter, .int 0⟩] "Y[t] = a[t]" "c1",
+   .eqn [⟨"Z", .endogenous, .int 0⟩, ⟨"a", .exogenous, .int 0⟩] "Z[t] = a[t]" "c2"]
+private def exDouble : List Stmt :=
+  [.eqn [⟨"Y", .endogenous, .int 0⟩, ⟨"X", .exogenous, .int 0⟩] "Y[t] = X[t]" "c1",
+   .eqn [⟨"Y", .endogenous, .int 0⟩, ⟨"Z", .exogenous, .int 0⟩] "Y[t] = Z[t]" "c2"]
+
+private def exSyms : List Symbol := match parseModel exS with | .ok s => s | .error _ => []
+private def exL : Lists :=
+  match buildLists exSyms {} with
+  | .ok L => L
+  | .error _ => ⟨[], [], [], [], [], [], 0, 0⟩
+private def exL' : Lists :=
+  match buildLists exSyms { lags := some 5, minLeads := 4 } with
+  | .ok L => L
+  | .error _ => ⟨[], [], [], [], [], [], 0, 0⟩
+
+private theorem exS_ok : parseModel exS = .ok exSyms := by rfl
+private theorem exS_wi : WellIndexed exS := by unfold WellIndexed; decide
+private theorem exKind_wi : WellIndexed exKind := by unfold WellIndexed; decide
+private theorem exDouble_wi : WellIndexed exDouble := by unfold WellIndexed; decide
+private theorem exL_ok : buildLists exSyms {} = .ok exL := by rfl
+private theorem exL'_ok : buildLists exSyms { lags := some 5, minLeads := 4 } = .ok exL' := by rfl
+
+private theorem differ_iff (a b : Option String) :
+    (∃ e1 e2, a = some e1 ∧ b = some e2 ∧ e1 ≠ e2) ↔ (a.isSome = true ∧ b.isSome = true ∧ a ≠ b) := by
+  cases a <;> cases b <;> simp
+private def DoubleDef' (S : List Stmt) : Prop :=
+  ∃ s1 ∈ scriptOcc S, ∃ s2 ∈ scriptOcc S, s1.name = s2.name ∧
+    ((s1.equation.isSome = true ∧ s2.equation.isSome = true ∧ s1.equation ≠ s2.equation) ∨
+     (s1.code.isSome = true ∧ s2.code.isSome = true ∧ s1.code ≠ s2.code))
+private theorem doubleDef_iff (S : List Stmt) : DoubleDef' S ↔ DoubleDef S := by
+  unfold DoubleDef DoubleDef'; simp only [differ_iff]
+private instance : DecidablePred DoubleDef' := fun S => by unfold DoubleDef'; infer_instance
+private instance : DecidablePred DoubleDef := fun S => decidable_of_iff _ (doubleDef_iff S)
+private instance : DecidablePred KindConflict := fun S => by unfold KindConflict; infer_instance
+private instance : DecidablePred StmtClash := fun s => by unfold StmtClash; infer_instance
+private instance : DecidablePred DefinesOne := fun s => by cases s <;> unfold DefinesOne <;> infer_instance
+private instance : DecidablePred BadStmt := fun S => by unfold BadStmt; infer_instance
+
+example : exSyms.map (fun s => (s.name, s.type)) =
+    [(some "Z", .endogenous), (some "log", .function), (some "Y", .endogenous), (some "a", .parameter),
+     (some "X", .exogenous), (some "e", .error)] := by decide
+example : (exL.endogenous, exL.exogenous, exL.parameters, exL.errors, exL.lags, exL.leads) =
+    ([some "Z", some "Y"], [some "X"], [some "a"], [some "e"], 1, 2) := by decide
+
+/-- `promote_spec` at EXOGENOUS/ENDOGENOUS. -/
+example : promote .exogenous .endogenous = .endogenous :=
+  (promote_spec .exogenous .endogenous rfl rfl).1.mpr (Or.inr rfl)
+
+/-- `lhs_variable_endogenous` on `Y = X[-1] * {a}` as `parse_terms` hands it over (VARIABLE terms). -/
+example : [⟨"Y", .endogenous, .int 0⟩, ⟨"X", .exogenous, .int (-1)⟩, ⟨"a", .parameter, .int 0⟩] =
+    ([⟨"Y", .variable, .int 0⟩] : List Parser.Term).map (retype .endogenous) ++
+      ([⟨"X", .variable, .int (-1)⟩, ⟨"a", .parameter, .int 0⟩] : List Parser.Term).map (retype .exogenous) :=
+  (lhs_variable_endogenous (lhs := [⟨"Y", .variable, .int 0⟩])
+    (rhs := [⟨"X", .variable, .int (-1)⟩, ⟨"a", .parameter, .int 0⟩]) (by rfl)).1
+
+/-- `classify_spec` on `exS`: Y (read with a lead first, assigned later) is endogenous, not exogenous. -/
+example : (some "Y" ∈ namesOfType .endogenous exSyms ↔ Occurs exS "Y" .endogenous) ∧
+    (some "Y" ∈ namesOfType .exogenous exSyms ↔ Occurs exS "Y" .exogenous ∧ ¬ Occurs exS "Y" .endogenous) :=
+  ⟨(classify_spec exS_ok exS_wi "Y").1, (classify_spec exS_ok exS_wi "Y").2.2.2⟩
+example : some "Y" ∈ namesOfType .endogenous exSyms ∧ some "Y" ∉ namesOfType .exogenous exSyms ∧
+    some "X" ∈ namesOfType .exogenous exSyms := by decide
+
+/-- `classify_rejects`, `rejection_class`, `rejects_symbolError`, `rejects_parserError` on the two bad scripts. -/
+example : (∃ e, parseModel exKind = .error e) ∧ (∃ e, parseModel exDouble = .error e) :=
+  ⟨classify_rejects exKind_wi (Or.inl (by decide)), classify_rejects exDouble_wi (Or.inr (by decide))⟩
+example : (Err.symbolError = .symbolError ∧ KindConflict exKind) ∨
+    (Err.symbolError = .parserError ∧ (DoubleDef exKind ∨ BadStmt exKind)) :=
+  rejection_class (S := exKind) (by rfl) exKind_wi
+example : parseModel exKind = .error .symbolError :=
+  rejects_symbolError exKind_wi (by decide) (by decide) (by decide)
+example : parseModel exDouble = .error .parserError :=
+  rejects_parserError exDouble_wi (Or.inl (by decide)) (by decide)
+/-- … second disjunct of `rejects_parserError`: `{a} = X` assigns no variable. -/
+example : parseModel [.eqn [⟨"a", .parameter, .int 0⟩, ⟨"X", .exogenous, .int 0⟩] "e" "c"] = .error .parserError :=
+  rejects_parserError (by unfold WellIndexed; decide)
+    (Or.inr ⟨_, List.Mem.head _, by decide⟩) (by decide)
+
+/-- `accepted_iff`, `accepted_no_function_clash` on `exS` (which does call a function). -/
+example : ¬ KindConflict exS ∧ ¬ DoubleDef exS ∧ ∀ stmt ∈ exS, DefinesOne stmt :=
+  (accepted_iff exS_wi).1 ⟨exSyms, exS_ok⟩
+example : NoFunctionClash exS := accepted_no_function_clash exS_ok exS_wi
+
+/-- `function_clash_rejected`, `stepTerm_*`: `Y = log + log(…)` in both orders. -/
+example : ∃ x, symbolsOfTerms "e" "c"
+    [⟨"Y", .endogenous, .int 0⟩, ⟨"log", .exogenous, .int 0⟩, ⟨"log", .function, .none⟩] = .error x :=
+  function_clash_rejected (by decide) (by unfold ClashT; decide)
+example : stepTerm "e" "c" ⟨[⟨some "Y", .endogenous, .int 0, .int 0, some "e", some "c"⟩,
+      ⟨some "log", .exogenous, .int 0, .int 0, none, none⟩], []⟩ ⟨"log", .function, .none⟩ = .error .parserError :=
+  stepTerm_function_after_variable "e" "c" _ _ ⟨some "log", .exogenous, .int 0, .int 0, none, none⟩ rfl rfl rfl
+example : stepTerm "e" "c" ⟨[⟨some "Y", .endogenous, .int 0, .int 0, some "e", some "c"⟩],
+      [⟨some "log", .function, .none, .none, none, none⟩]⟩ ⟨"log", .exogenous, .int 0⟩ = .error .parserError :=
+  stepTerm_variable_after_function "e" "c" _ _ ⟨some "log", .function, .none, .none, none, none⟩
+    (by decide) (by decide) rfl
+
+/-- `identical_duplicates_accepted`: repeating the first statement of `exS`. -/
+example : ∃ syms', parseModel (exS ++ [exS0]) = .ok syms' ∧
+    syms'.filter (fun s => s.name.isSome) = exSyms.filter (fun s => s.name.isSome) :=
+  identical_duplicates_accepted exS_ok exS_wi (List.Mem.head _)
+
+/-- `combine_error_class`: `{a}` against the variable `a` is a SymbolError. -/
+example : combine ⟨some "a", .parameter, .int 0, .int 0, none, none⟩ ⟨some "a", .exogenous, .int 0, .int 0, none, none⟩
+    = .error .symbolError :=
+  (combine_error_class ⟨some "a", .parameter, .int 0, .int 0, none, none⟩
+    ⟨some "a", .exogenous, .int 0, .int 0, none, none⟩ rfl).1.2 (by decide)
+
+/-- `symbol_order`, `names_partition`, `lags_leads_spec` on `exS`. -/
+example : ∃ D V, exSyms = D ++ V ∧ keys D = firstApp (scriptNames exS) ∧ (keys D).Nodup ∧
+    (∀ v ∈ V, v.name = none ∧ v.type = .verbatim) := symbol_order exS_ok exS_wi
+example : exL.names = exL.endogenous ++ exL.exogenous ++ exL.parameters ++ exL.errors ∧ exL.check = exL.endogenous ∧
+    exL.names.Nodup := by
+  have h := names_partition exS_ok exS_wi exL_ok
+  exact ⟨h.1, h.2.1, h.2.2.1⟩
+example : autoLags exSyms = .ok 1 ∧ autoLeads exSyms = .ok 2 := lags_leads_spec exS_ok exS_wi
+
+/-- `explicit_replace` / `min_only_raise` with `lags=5, min_leads=4` (computed lengths 1 and 2). -/
+example : exL'.lags = 5 := (explicit_replace exL'_ok).1 5 rfl
+example : ∃ a, autoLeads exSyms = .ok a ∧ exL'.leads = max a 4 ∧ a ≤ exL'.leads ∧ (4 : Int) ≤ exL'.leads ∧
+    ((4 : Int) ≤ a → exL'.leads = a) := (min_only_raise exL'_ok).2 rfl
+example : exL'.leads = 4 ∧ exL.leads = 2 := by decide
+
+/-- `default_range_enumerated` / `default_range_single` / `default_range_is_solve_range` /
+    `default_range_is_accepted_periods` at `LAGS = 1, LEADS = 2, n = 6`. -/
+example : ∀ t : Nat, t ∈ periodRange 1 (6 - 1 - 2) ↔ (1 ≤ t ∧ (t : Int) ≤ (6 : Nat) - 1 - (2 : Nat)) :=
+  (default_range_enumerated 1 2 6 (by decide)).1
+example : periodRange 1 ((1 + 2) - 1 - 2) = [] := (default_range_single 1 2).2 (by decide)
+example {σ V : Type} (I : Interp σ V) (w : World σ) :
+    solve I {} 6 1 2 none none w = solveList I {} 6 (periodRange 1 (6 - 1 - 2)) w [] [] :=
+  default_range_is_solve_range I {} 6 1 2 w (by decide) (by decide) (by decide) (by decide)
+private def exI12 : Interp Unit Unit :=
+  { lags := 1, leads := 2, check := fun _ _ => (), allFinite := fun _ => true, close := fun _ _ => true,
+    zeroNF := id, copyOffset := fun u _ _ => u, before := fun _ u _ => (u, false),
+    eval := fun _ u _ _ => (u, false), after := fun _ u _ _ => (u, false) }
+example : Feasible exI12 6 (3 : Nat) ∧ ¬ Feasible exI12 6 (4 : Nat) :=
+  ⟨(default_range_is_accepted_periods exI12 6 3 (by decide)).1 (by decide),
+   fun h => absurd ((default_range_is_accepted_periods exI12 6 4 (by decide)).2 h) (by decide)⟩
+
 end Fsic.C03
